@@ -17,7 +17,8 @@ import ops
 import isa
 
 
-def build_tus(cfgs, families, type_filter=None, header_extra=()):
+def build_tus(cfgs, families, type_filter=None, header_extra=(), tier="quick"):
+    ops.TIER = tier
     """returns list of job dicts ready for analysis"""
     jobs = []
     tus = []
@@ -30,9 +31,13 @@ def build_tus(cfgs, families, type_filter=None, header_extra=()):
                 insts = ops.FAMILIES[fam](vt, cfg)
                 if not insts:
                     continue
-                ws = [(i.fname, ops.wrapper_line(i), i.key(cfg, vt)) for i in insts]
-                names = [w[0] for w in ws]
-                assert len(set(names)) == len(names), "duplicate wrapper names in %s" % fam
+                ws = []
+                seen = set()
+                for i in insts:
+                    if i.fname in seen:
+                        continue            # several instances share one wrapper (run-time n)
+                    seen.add(i.fname)
+                    ws.append((i.fname, ops.wrapper_line(i), i.key(cfg, vt)))
                 tu = e3.TU(cfg, "%s.%s" % (vt.name, fam), ops.header(vt, header_extra), ws)
                 tus.append((tu, cfg, vt, fam))
 
@@ -41,10 +46,13 @@ def build_tus(cfgs, families, type_filter=None, header_extra=()):
         try:
             js, missing = tu.build()
             return {"cfg": cfg.name, "named": cfg.named, "type": vt.name, "fam": fam, "json": js,
-                    "missing": missing}
+                    "missing": missing, "tier": tier, "prop": PROP[0]}
         except Broken as e:
             return {"cfg": cfg.name, "type": vt.name, "fam": fam, "broken": str(e)}
     return pmap(b, tus)
+
+
+PROP = [None]
 
 
 def _vt_by_name(name):
@@ -151,7 +159,14 @@ def analyse_job(job):
     class _C:  # minimal cfg stand-in for family generators
         name = job["cfg"]
         named = job.get("named", [])
+    ops.TIER = job.get("tier", "quick")
+    prop = job.get("prop")
     insts = ops.FAMILIES[job["fam"]](vt, _C)
+    if prop:
+        insts = [i for i in insts if not hasattr(i, "judges") or prop in i.judges]
+    miss_fn = set()
+    for k, msg in job["missing"]:
+        pass
     miss = {json.dumps(k, sort_keys=True): msg for k, msg in job["missing"]}
     I = irterm.Interp(m, isa.TABLE)
     out = []
@@ -159,6 +174,11 @@ def analyse_job(job):
     for inst in insts:
         key = inst.key(_C, vt)
         ks = json.dumps(key, sort_keys=True)
+        if ks not in miss and getattr(inst, "subst", None) is not None:
+            # shared wrapper: missing is recorded under the first instance's key
+            for k2, msg2 in job["missing"]:
+                if k2.get("op") == key.get("op") and k2.get("type") == key.get("type"):
+                    ks = json.dumps(k2, sort_keys=True)
         if ks in miss:
             if getattr(inst, "optional", False):
                 continue
@@ -170,11 +190,19 @@ def analyse_job(job):
             continue
         try:
             ctx = make_ctx(vt, inst, f)
+            sub = getattr(inst, "subst", None)
+            if sub:
+                for nm, val in sub.items():
+                    k = ctx.argidx[nm]
+                    ctx.argterms[k] = T.const(ctx.argterms[k][1], val)
+                    ctx.args[nm] = ctx.argterms[k]
             S = I.summarise(inst.fname, ctx.argterms, ctx.boolmem)
             ctx.summary = S
             for u in S.unknown:
                 unknown[u] = unknown.get(u, 0) + 1
             j = inst.judge or judge_default
+            if prop and getattr(inst, "judges", None) and inst.judges.get(prop):
+                j = inst.judges[prop]
             v, detail, rule, wit = j(ctx, inst, S)
         except Broken:
             raise
@@ -188,7 +216,8 @@ def analyse_job(job):
 
 def run_families(res, cfgs, families, type_filter=None):
     e3.ensure_tools()
-    jobs = build_tus(cfgs, families, type_filter)
+    PROP[0] = res.prop
+    jobs = build_tus(cfgs, families, type_filter, tier=res.tier)
     # identical IR across configurations is analysed once
     results = procmap(analyse_job, jobs)
     unknown = {}
